@@ -24,21 +24,28 @@ def apply_fn(f, inv):
     if f == 'cost': return inv.reduce(convert.get_cost)
 
 
+FROM_PARTS = {'': ('', ''), ' year = 2020': ('year = 2020', ''), ' OPEN ON 2020-01-15 CLOSE ON 2020-02-10': ('', ' OPEN ON 2020-01-15 CLOSE ON 2020-02-10'), ' CLOSE': ('', ' CLOSE'),
+              " account ~ 'Assets' OPEN ON 2020-01-05": ("account ~ 'Assets'", ' OPEN ON 2020-01-05'), ' OPEN ON 2021-01-04 CLOSE ON 2021-01-07 CLEAR': ('', ' OPEN ON 2021-01-04 CLOSE ON 2021-01-07 CLEAR'),
+              " account ~ 'Expenses'": ("account ~ 'Expenses'", ''), ' number < -10 CLOSE ON 2020-02-10': ('number < -10', ' CLOSE ON 2020-02-10')}
+
+
 def posts_of(conn, from_clause):
-    """rows (entry-id-free) of the postings table under the FROM clause, via the plain SELECT"""
-    q = 'SELECT date, flag, payee, narration, account, position FROM' + from_clause if from_clause else 'SELECT date, flag, payee, narration, account, position'
+    """rows (entry-id-free) of the postings table under the FROM clause, via a plain SELECT on a connection of its own in which
+    the filter expression of the clause is written as WHERE (a FROM expression filters rows like a WHERE condition, posting by posting)"""
+    expr, quals = FROM_PARTS[from_clause]
+    q = 'SELECT date, flag, payee, narration, account, position' + (f' FROM{quals}' if quals else '') + (f' WHERE {expr}' if expr else '')
     return conn.execute(q).fetchall()
 
 
 def check_ledger(res, name, src):
     entries, _, options = ledger.load(src)
     conn = ledger.connect(src)
-    froms = ['', ' year = 2020', ' OPEN ON 2020-01-15 CLOSE ON 2020-02-10', ' CLOSE', " account ~ 'Assets' OPEN ON 2020-01-05", ' OPEN ON 2021-01-04 CLOSE ON 2021-01-07 CLEAR']
+    froms = list(FROM_PARTS)
     wheres = [None, "account ~ 'Assets'", "currency = 'USD'", "number > 0"]
     wpred = {None: lambda r: True, "account ~ 'Assets'": lambda r: 'assets' in r[4].lower(), "currency = 'USD'": lambda r: r[5].units.currency == 'USD', "number > 0": lambda r: r[5].units.number > 0}
     for f in (None, 'units', 'cost'):
         for frm in froms:
-            base = posts_of(conn, frm)
+            base = posts_of(ledger.connect(src), frm)       # the reference never shares a connection (and its tables) with the statement under test
             for w in wheres:
                 # BALANCES
                 stmt = 'BALANCES' + (f' AT {f}' if f else '') + (f' FROM{frm}' if frm else '') + (f' WHERE {w}' if w else '')
@@ -101,10 +108,13 @@ def check_ledger(res, name, src):
                     (" has_account('Bank')", dict(_pred=lambda e: any(re.search('Bank', a) for a in getters.get_entry_accounts(e)))),
                     (" has_account('Expenses:Food')", dict(_pred=lambda e: any(re.search('Expenses:Food', a) for a in getters.get_entry_accounts(e)))),
                     # filter expressions that are not booleans select by truth value, as WHERE does (a non-empty set / string, a non-zero number)
-                    (' tags', dict(_pred=lambda e: bool(getattr(e, 'tags', None)))), (' links', dict(_pred=lambda e: bool(getattr(e, 'links', None)))),
+                    # (the tags / links columns are those of transactions: NULL for a tagged note or document, which the ledger has)
+                    (' tags', dict(_pred=lambda e: isinstance(e, data.Transaction) and bool(e.tags))), (' links', dict(_pred=lambda e: isinstance(e, data.Transaction) and bool(e.links))),
+                    (" 'food' IN tags", dict(_pred=lambda e: isinstance(e, data.Transaction) and 'food' in e.tags)),
+                    (" 'link1' IN links", dict(_pred=lambda e: isinstance(e, data.Transaction) and 'link1' in e.links)),
                     (' payee', dict(_pred=lambda e: bool(getattr(e, 'payee', None)))), (' year', dict(_pred=lambda e: True)),
                     (" meta('ref')", dict(_pred=lambda e: bool((e.meta or {}).get('ref')))), (' narration', dict(_pred=lambda e: bool(getattr(e, 'narration', None)))),
-                    (' tags OPEN ON 2020-01-03', dict(open=D(2020, 1, 3), _pred=lambda e: bool(getattr(e, 'tags', None))))]:
+                    (' tags OPEN ON 2020-01-03', dict(open=D(2020, 1, 3), _pred=lambda e: isinstance(e, data.Transaction) and bool(e.tags)))]:
         kw = dict(kw)
         pred = kw.pop('_pred', None)
         stmt = 'PRINT' + (f' FROM{frm}' if frm else '')
